@@ -61,6 +61,7 @@ Inductive edit : Type :=
 | ELeafPopKey (p : nat)                  (* leaf p: keys.pop() *)
 | ELeafPush (p : nat) (k : key) (v : V)  (* leaf p: push_key; push_value *)
 | ELeafPushKey (p : nat) (k : key)       (* leaf p: push_key only *)
+| ELeafPushVal (p : nat) (v : V)         (* leaf p: push_value only *)
 | ELeafTrunc (p n : nat)                 (* leaf p: truncate keys and values to n *)
 | EBranchTrunc (p n : nat)               (* branch p: keys truncated to n, children to n+1 *)
 | EBranchPopChild (p : nat)
@@ -99,6 +100,7 @@ Definition apply_edit (h : heap) (e : edit) : heap :=
   | ELeafPopKey p => on_leaf h p (fun l => mkLeaf (lcap l) (removelast (lkeys l)) (lvals l) (lnext l))
   | ELeafPush p k v => on_leaf h p (fun l => mkLeaf (lcap l) (lkeys l ++ [k]) (lvals l ++ [v]) (lnext l))
   | ELeafPushKey p k => on_leaf h p (fun l => mkLeaf (lcap l) (lkeys l ++ [k]) (lvals l) (lnext l))
+  | ELeafPushVal p v => on_leaf h p (fun l => mkLeaf (lcap l) (lkeys l) (lvals l ++ [v]) (lnext l))
   | ELeafTrunc p n => on_leaf h p (fun l => mkLeaf (lcap l) (firstn n (lkeys l)) (firstn n (lvals l)) (lnext l))
   | EBranchTrunc p n => on_branch h p (fun b => mkBranch (bcap b) (firstn n (bkeys b)) (firstn (S n) (bkids b)))
   | EBranchPopChild p => on_branch h p (fun b => mkBranch (bcap b) (bkeys b) (removelast (bkids b)))
